@@ -1,7 +1,17 @@
 #!/venv/bin/python
-"""Translator T5: the BODIES of the composite handlers of Geometry3D/calc/intersection.py and of the helpers of
-Geometry3D/calc/aux_calc.py  ->  lean/G3D/Extracted/Handlers.lean
-usage: extract_handlers.py <repo>      (Lean source on stdout; fails closed on any unknown syntax)
+"""Translator T5 (shared engine): the BODIES of the handlers of Geometry3D/calc/intersection.py and of the helpers of
+Geometry3D/calc/aux_calc.py  ->  lean/G3D/Extracted/H{flat,polygon,polyhedron,body}.lean
+Used through the thin wrappers tools/extract_hflat.py, extract_hpolygon.py, extract_hpolyhedron.py, extract_hbody.py
+(`extract_<group>.py <repo>`: Lean source of ONE group on stdout).  The four groups are independent: no generated file
+imports another one, so an edit of one Python handler rewrites exactly one generated file.
+
+Fault isolation (per function): when a function contains a construct the translator does not know, or an expected
+function is missing, ONLY that function is affected: instead of `h_<name>` the file contains
+    def h_<name>_EXTRACTION_FAILED : String := "<function>:<line>: <what>"
+so exactly the tie theorems of that function stop compiling; the message also goes to stderr and the exit status is 0.
+A function that directly calls a failed function of its own group falls back to `pyCallHandler` (the model's handler)
+when the callee is one of the 28 handlers, and fails likewise when the callee is a helper.  Exit status 1 only when a
+source file cannot be read / parsed at all.
 
 Every Python function becomes ONE Lean definition `h_<python name>`, translated statement by statement from the
 Python AST into the vocabulary of lean/G3D/Model/PyRt.lean (the "Python runtime"):
@@ -34,15 +44,15 @@ Python AST into the vocabulary of lean/G3D/Model/PyRt.lean (the "Python runtime"
   a * b, a + b, a - b                     (← pyMul a b) ...
   intersection(a, b)                      (← pyIntersection a b)        = the model's dispatcher `interRef`
   x.intersection(y)                       (← pyMeth_intersection x y)
-  inter_xxx(a, b)                         (← h_inter_xxx a b) if extracted here, else (← pyCallHandler .inter_xxx a b)
-  helper(a, ..)   (aux_calc, extracted)   (← h_helper a ..)
+  inter_xxx(a, b)                         (← h_inter_xxx a b) if extracted in the same group, else (← pyCallHandler .inter_xxx a b)
+  helper(a, ..)   (aux_calc)              (← h_helper a ..)   (same group only; a helper of another group is an error)
   get_relative_projection_length(u, v)    (← pyRelProjLen u v)
   Segment(a,b) Line(a,b) Vector(a,b)      (← pySegment a b) (← pyLine a b) (← pyVector a b)
   ConvexPolygon(t, reverse=r, check_convex=c)   (← pyConvexPolygon t r c)       ConvexPolyhedron(t): pyConvexPolyhedron
   x.segments() u.parallel(v) s.union(t)   (← pyMeth_segments x) (← pyMeth_parallel u v) (← pySetUnion s t)
   copy.deepcopy(x) / copy.deepcopy(x).move(v)   (pyDeepcopy x) / (← pyMeth_move (pyDeepcopy x) v)
 
-Anything else is an error: the tool prints `extract_handlers: <function>:<line>: <what>` on stderr and exits 1.
+Anything else is an error for THAT function (see fault isolation above): `extract_<group>: <function>:<line>: <what>` on stderr.
 
 Scoping: Python variables are function-scoped, Lean's are block-scoped.  A variable is declared (`let mut`) at its
 first assignment; reading a variable that is not declared in an enclosing block at that point (Python: possibly
@@ -52,45 +62,41 @@ That results do not depend on this order is NOT assumed by the translation (it i
 the exactness theorems establish); the differential tests compare order-insensitively."""
 import ast, sys, os
 
-repo = sys.argv[1]
-
 INTER = 'Geometry3D/calc/intersection.py'
 AUX = 'Geometry3D/calc/aux_calc.py'
 
-# (file, function) in emission order preference (a callee is always emitted before its callers)
-TARGETS = [
-    (AUX, 'get_segment_from_point_list'),
-    (AUX, 'points_in_a_line'),
-    (AUX, 'get_segment_convexpolygon_intersection_point_set'),
-    (AUX, 'get_segment_convexpolyhedron_intersection_point_set'),
-    (AUX, 'get_halfline_convexpolyhedron_intersection_point_set'),
-    (INTER, 'inter_point_point'),
-    (INTER, 'inter_point_line'),
-    (INTER, 'inter_point_plane'),
-    (INTER, 'inter_point_segment'),
-    (INTER, 'inter_point_halfline'),
-    (INTER, 'inter_point_convexpolygon'),
-    (INTER, 'inter_point_convexpolyhedron'),
-    (INTER, 'inter_line_segment'),
-    (INTER, 'inter_line_halfline'),
-    (INTER, 'inter_plane_segment'),
-    (INTER, 'inter_plane_halfline'),
-    (INTER, 'inter_segment_segment'),
-    (INTER, 'inter_segment_halfline'),
-    (INTER, 'inter_halfline_halfline'),
-    (INTER, 'inter_line_convexpolygon'),
-    (INTER, 'inter_line_convexpolyhedron'),
-    (INTER, 'inter_plane_convexpolygon'),
-    (INTER, 'inter_plane_convexpolyhedron'),
-    (INTER, 'inter_segment_convexpolygon'),
-    (INTER, 'inter_segment_convexpolyhedron'),
-    (INTER, 'inter_convexpolygon_halfline'),
-    (INTER, 'inter_convexpolyhedron_halfline'),
-    (INTER, 'inter_convexpolygon_convexpolygon'),
-    (INTER, 'inter_convexpolygon_convexPolyhedron'),
-    (INTER, 'inter_convexpolyhedron_convexpolyhedron'),
-]
-TARGET_NAMES = [n for _, n in TARGETS]
+# group -> (file, function) in emission order preference (a callee is always emitted before its callers).
+# Every helper sits in the group of its only callers, so no group refers to another one.
+GROUPS = {
+    'hflat': [
+        (INTER, 'inter_point_point'), (INTER, 'inter_point_line'), (INTER, 'inter_point_plane'),
+        (INTER, 'inter_point_segment'), (INTER, 'inter_point_halfline'),
+        (INTER, 'inter_line_segment'), (INTER, 'inter_line_halfline'),
+        (INTER, 'inter_plane_segment'), (INTER, 'inter_plane_halfline'),
+        (INTER, 'inter_segment_segment'), (INTER, 'inter_segment_halfline'), (INTER, 'inter_halfline_halfline'),
+    ],
+    'hpolygon': [
+        (INTER, 'inter_point_convexpolygon'), (INTER, 'inter_line_convexpolygon'), (INTER, 'inter_plane_convexpolygon'),
+        (INTER, 'inter_segment_convexpolygon'), (INTER, 'inter_convexpolygon_halfline'),
+    ],
+    'hpolyhedron': [
+        (AUX, 'get_segment_from_point_list'),
+        (AUX, 'get_segment_convexpolyhedron_intersection_point_set'),
+        (AUX, 'get_halfline_convexpolyhedron_intersection_point_set'),
+        (INTER, 'inter_point_convexpolyhedron'), (INTER, 'inter_line_convexpolyhedron'),
+        (INTER, 'inter_plane_convexpolyhedron'), (INTER, 'inter_segment_convexpolyhedron'),
+        (INTER, 'inter_convexpolyhedron_halfline'),
+    ],
+    'hbody': [
+        (AUX, 'points_in_a_line'),
+        (AUX, 'get_segment_convexpolygon_intersection_point_set'),
+        (INTER, 'inter_convexpolygon_convexpolygon'),
+        (INTER, 'inter_convexpolygon_convexPolyhedron'),
+        (INTER, 'inter_convexpolyhedron_convexpolyhedron'),
+    ],
+}
+GROUP_OF = {n: g for g, l in GROUPS.items() for _, n in l}
+AUX_HELPERS = [n for g, l in GROUPS.items() for f, n in l if f == AUX]
 
 # the 28 handlers known to the model's `runHandler` (G3D.Dispatch.Handler)
 HANDLERS = ['inter_point_point', 'inter_point_line', 'inter_point_plane', 'inter_point_segment', 'inter_point_halfline',
@@ -121,7 +127,8 @@ class Fail(Exception):
 class Fn:
     """translation of one Python function"""
 
-    def __init__(self, path, node):
+    def __init__(self, eng, path, node):
+        self.eng = eng
         self.path, self.node, self.name = path, node, node.name
         self.calls = []          # extracted functions this one calls (for ordering)
         self.scopes = []         # stack of sets of declared variable names
@@ -269,12 +276,19 @@ class Fn:
             if n == 'intersection':
                 a = self.args(e, 2)
                 return 'pyIntersection %s %s' % (a[0], a[1]), True
-            if n in TARGET_NAMES:
-                nparams = len(FUNCS[n].node.args.args)
-                a = self.args(e, nparams)
-                if n not in self.calls:
-                    self.calls.append(n)
-                return 'h_%s %s' % (n, ' '.join(a)), True
+            if n in GROUP_OF:
+                if GROUP_OF[n] == self.eng.group:
+                    callee = self.eng.result(n)      # translated first (callee before caller)
+                    if callee.ok:
+                        a = self.args(e, len(callee.fn.node.args.args))
+                        if n not in self.calls:
+                            self.calls.append(n)
+                        return 'h_%s %s' % (n, ' '.join(a)), True
+                    if n not in HANDLERS:
+                        self.fail(e, 'calls the helper %s whose extraction failed' % n)
+                    # a failed handler of this group: fall through to the model's handler
+                elif n not in HANDLERS:
+                    self.fail(e, 'calls the helper %s, which belongs to the group %s' % (n, GROUP_OF[n]))
             if n in HANDLERS:
                 a = self.args(e, 2)
                 return 'pyCallHandler .%s %s %s' % (n, a[0], a[1]), True
@@ -359,7 +373,7 @@ class Fn:
             if isinstance(s.value, ast.Constant) and isinstance(s.value.value, str):
                 return  # docstring
             if self.is_logger_call(s):
-                out.append('%s-- line %d: logging statement dropped' % (ind, s.lineno))
+                out.append('%s-- logging statement dropped' % ind)
                 return
             v = s.value
             if isinstance(v, ast.Call) and isinstance(v.func, ast.Attribute) and v.func.attr in ('add', 'append'):
@@ -478,75 +492,95 @@ class Fn:
             lines = []
         if self.falls_through(self.node.body):
             lines.append('  return Val.none')
-        head = '/-- %s:%d `%s(%s)` -/\ndef h_%s %s: PyM Val := do' % (
-            self.path, self.node.lineno, self.name, ', '.join(self.params), self.name,
+        # no line numbers in the output: an edit elsewhere in the source must not rewrite this group's file
+        head = '/-- %s `%s(%s)` -/\ndef h_%s %s: PyM Val := do' % (
+            self.path, self.name, ', '.join(self.params), self.name,
             ''.join('(%s : Val) ' % self.lean_name(p) for p in self.params))
         return head + '\n' + '\n'.join(lines) + '\n'
 
 
-FUNCS = {}
+class Result:
+    def __init__(self, name, fn=None, text=None, error=None):
+        self.name, self.fn, self.text, self.error, self.ok = name, fn, text, error, error is None
 
 
-def main():
-    mods = {}
-    for path in (AUX, INTER):
-        try:
-            mods[path] = ast.parse(open(os.path.join(repo, path)).read())
-        except (OSError, SyntaxError) as ex:
-            sys.stderr.write('extract_handlers: cannot parse %s: %s\n' % (path, ex))
-            sys.exit(1)
-    for path, name in TARGETS:
-        defs = [n for n in mods[path].body if isinstance(n, ast.FunctionDef) and n.name == name]
+class Engine:
+    def __init__(self, group, repo):
+        self.group, self.repo = group, repo
+        self.results = {}
+        self.busy = set()
+        self.order = []
+        self.mods = {}
+        for path in sorted({p for p, _ in GROUPS[group]}):
+            try:
+                self.mods[path] = ast.parse(open(os.path.join(repo, path)).read())
+            except (OSError, SyntaxError, ValueError) as ex:
+                sys.stderr.write('extract_%s: cannot parse %s: %s\n' % (group, path, ex))
+                sys.exit(1)
+
+    def result(self, name):
+        if name in self.results:
+            return self.results[name]
+        path = dict((n, p) for p, n in GROUPS[self.group])[name]
+        if name in self.busy:
+            return Result(name, error='%s:0: direct recursion between extracted functions' % name)
+        self.busy.add(name)
+        defs = [n for n in self.mods[path].body if isinstance(n, ast.FunctionDef) and n.name == name]
         if len(defs) != 1:
-            sys.stderr.write('extract_handlers: %s: expected exactly one top-level definition in %s, found %d\n'
-                             % (name, path, len(defs)))
-            sys.exit(1)
-        FUNCS[name] = Fn(path, defs[0])
-    texts = {}
-    try:
-        for name in TARGET_NAMES:
-            texts[name] = FUNCS[name].translate()
-    except Fail as ex:
-        sys.stderr.write('extract_handlers: %s\n' % ex)
+            r = Result(name, error='%s:0: expected exactly one top-level definition in %s, found %d'
+                                   % (name, path, len(defs)))
+        else:
+            fn = Fn(self, path, defs[0])
+            try:
+                r = Result(name, fn=fn, text=fn.translate())
+            except Fail as ex:
+                r = Result(name, fn=fn, error=str(ex))
+        self.busy.discard(name)
+        self.results[name] = r
+        self.order.append(name)        # callees are completed (hence listed) before their callers
+        return r
+
+    def run(self):
+        names = [n for _, n in GROUPS[self.group]]
+        for n in names:
+            self.result(n)
+        out = []
+        out.append('import G3D.Model.PyRt')
+        out.append('/-! GENERATED by tools/extract_%s.py (engine tools/hextract.py) from %s — do not edit'
+                   % (self.group, ' and '.join(sorted({p for p, _ in GROUPS[self.group]}))))
+        out.append('')
+        out.append('    One definition `h_<python name>` per Python function, translated statement by statement from the Python')
+        out.append('    AST into the vocabulary of G3D/Model/PyRt.lean (see the table in the docstring of tools/hextract.py).')
+        out.append('    A function that could not be translated appears as `h_<name>_EXTRACTION_FAILED : String` instead.')
+        out.append('    Trusted reading: a Python `set` is iterated in insertion order (Python: hash order); a generic')
+        out.append('    `intersection(a, b)` is the model\'s reference dispatcher `interRef`; `ConvexPolygon.segments()` is read')
+        out.append('    eagerly; logging statements are dropped.  G3D/Proofs/HandlersTie*.lean prove every definition below equal')
+        out.append('    to the hand-written model of the same function. -/')
+        out.append('set_option linter.unusedVariables false')
+        out.append('namespace G3D.Extracted')
+        out.append('open G3D G3D.PyRt')
+        out.append('')
+        failed = []
+        for n in self.order:
+            r = self.results[n]
+            if r.ok:
+                out.append(r.text)
+            else:
+                failed.append(n)
+                sys.stderr.write('extract_%s: %s\n' % (self.group, r.error))
+                out.append('/-- `%s` could NOT be translated -/' % n)
+                out.append('def h_%s_EXTRACTION_FAILED : String := "%s"\n'
+                           % (n, r.error.replace('\\', '\\\\').replace('"', '\\"')))
+        out.append('/-- the Python functions of this group, in emission order -/')
+        out.append('def %sNames : List String := [%s]' % (self.group, ', '.join('"%s"' % n for n in self.order)))
+        out.append('/-- those that could not be translated -/')
+        out.append('def %sFailed : List String := [%s]' % (self.group, ', '.join('"%s"' % n for n in failed)))
+        out.append('end G3D.Extracted')
+        sys.stdout.write('\n'.join(out) + '\n')
+
+
+def main(group, argv):
+    if len(argv) != 2:
+        sys.stderr.write('usage: extract_%s.py <repo>\n' % group)
         sys.exit(1)
-    # callee-before-caller order, otherwise the order of TARGETS
-    order, seen, busy = [], set(), set()
-
-    def visit(n):
-        if n in seen:
-            return
-        if n in busy:
-            sys.stderr.write('extract_handlers: %s: direct recursion between extracted functions\n' % n)
-            sys.exit(1)
-        busy.add(n)
-        for c in FUNCS[n].calls:
-            visit(c)
-        busy.discard(n)
-        seen.add(n)
-        order.append(n)
-
-    for name in TARGET_NAMES:
-        visit(name)
-    out = []
-    out.append('import G3D.Model.PyRt')
-    out.append('/-! GENERATED by tools/extract_handlers.py from %s and %s — do not edit' % (AUX, INTER))
-    out.append('')
-    out.append('    One definition `h_<python name>` per Python function, translated statement by statement from the Python')
-    out.append('    AST into the vocabulary of G3D/Model/PyRt.lean (see the table in the docstring of the tool).')
-    out.append('    Trusted reading: a Python `set` is iterated in insertion order (Python: hash order); a generic')
-    out.append('    `intersection(a, b)` is the model\'s reference dispatcher `interRef`; `ConvexPolygon.segments()` is read')
-    out.append('    eagerly; logging statements are dropped.  G3D/Proofs/HandlersTie.lean proves every definition below equal')
-    out.append('    to the hand-written model of the same function. -/')
-    out.append('set_option linter.unusedVariables false')
-    out.append('namespace G3D.Extracted')
-    out.append('open G3D G3D.PyRt')
-    out.append('')
-    for n in order:
-        out.append(texts[n])
-    out.append('/-- the Python functions translated above, in emission order -/')
-    out.append('def handlerNames : List String := [%s]' % ', '.join('"%s"' % n for n in order))
-    out.append('end G3D.Extracted')
-    sys.stdout.write('\n'.join(out) + '\n')
-
-
-main()
+    Engine(group, argv[1]).run()
